@@ -138,4 +138,106 @@ theorem npDec_spec (c : Cls) (A : Mat) (n : Nat) (T : Nat → Nat → PB) (hT : 
     · subst hab; rw [hd a, bits_emptyG]
     · rw [hbits a b hab]; simp only [F]; rw [if_neg (fun e => hnot ⟨e.1, e.2.1⟩)]
 
+/-- invariant of the `pcalg_to_graph` loop: `memo_map` holds exactly the visited pairs (both
+    orientations), visited pairs carry their documented configuration, all others are empty -/
+def PcInv (A : Mat) (n : Nat) (T : Nat → Nat → PB) (done : List (Nat × Nat)) (st : MG × List (Nat × Nat)) : Prop :=
+  st.1.nodes = List.range n ∧
+  (∀ a b, (a, b) ∈ st.2 → (b, a) ∈ st.2 ∧ a ≠ b ∧ a < n ∧ b < n) ∧
+  (∀ a b, a ≠ b → bits st.1 a b = if (a, b) ∈ st.2 then T a b else PB.empty) ∧
+  (∀ a, bits st.1 a a = PB.empty) ∧
+  (∀ a b, (a, b) ∈ done → A a b ≠ 0 → (a, b) ∈ st.2)
+
+theorem pcDecStep_inv (c : Cls) (hc : c ∈ [Cls.cpdag, .pag]) (A : Mat) (n : Nat) (T : Nat → Nat → PB)
+    (hT : Denotes c .pcalg A n T) (u v : Nat) (hu : u < n) (hv : v < n)
+    (done : List (Nat × Nat)) (st : MG × List (Nat × Nat)) (hinv : PcInv A n T done st) :
+    ∃ st', pcDecStep c A (some st) (u, v) = some st' ∧ PcInv A n T (done ++ [(u, v)]) st' := by
+  obtain ⟨hn, hm, hb, hd, hdone⟩ := hinv
+  by_cases hz : A u v = 0
+  · refine ⟨st, by simp [pcDecStep, hz], hn, hm, hb, hd, ?_⟩
+    intro a b hab hnz
+    rcases List.mem_append.1 hab with h | h
+    · exact hdone a b h hnz
+    · simp at h; obtain ⟨rfl, rfl⟩ := h; exact absurd hz hnz
+  · by_cases hmem : (u, v) ∈ st.2
+    · refine ⟨st, by simp [pcDecStep, hz, hmem], hn, hm, hb, hd, ?_⟩
+      intro a b hab hnz
+      rcases List.mem_append.1 hab with h | h
+      · exact hdone a b h hnz
+      · simp at h; obtain ⟨rfl, rfl⟩ := h; exact hmem
+    · have huv : u ≠ v := by
+        intro e; subst e; exact hz (hT.1 u hu)
+      have hvis := pcDecPair_visit c hc _ (hT.2 u v hu hv huv) hz
+      have hspec := applyOpsG_spec c u v huv (pcDecPair c (A u v) (A v u)) st.1
+      have hbe : bits st.1 u v = PB.empty := by rw [hb u v huv, if_neg hmem]
+      rw [hbe, hvis] at hspec
+      obtain ⟨h, e1, e2, e3, e4⟩ := hspec
+      refine ⟨(h, (u, v) :: (v, u) :: st.2), by simp [pcDecStep, hz, hmem, e1], e2.trans hn, ?_, ?_, ?_, ?_⟩
+      · intro a b hab
+        simp only [List.mem_cons, Prod.mk.injEq] at hab ⊢
+        rcases hab with ⟨rfl, rfl⟩ | ⟨rfl, rfl⟩ | h
+        · exact ⟨Or.inr (Or.inl ⟨rfl, rfl⟩), huv, hu, hv⟩
+        · exact ⟨Or.inl ⟨rfl, rfl⟩, fun e => huv e.symm, hv, hu⟩
+        · obtain ⟨h1, h2⟩ := hm a b h
+          exact ⟨Or.inr (Or.inr h1), h2⟩
+      · intro a b hab
+        by_cases c1 : a = u ∧ b = v
+        · obtain ⟨rfl, rfl⟩ := c1
+          simp [e3]
+        · by_cases c2 : a = v ∧ b = u
+          · obtain ⟨rfl, rfl⟩ := c2
+            rw [bits_swap h b a, e3]
+            simp [hT.swap hu hv huv]
+          · rw [e4 a b c1 c2, hb a b hab]
+            simp only [List.mem_cons, Prod.mk.injEq, c1, c2, false_or]
+      · intro a
+        rw [e4 a a (fun e => huv (e.1.symm.trans e.2)) (fun e => huv (e.2.symm.trans e.1)), hd a]
+      · intro a b hab hnz
+        simp only [List.mem_cons, Prod.mk.injEq]
+        rcases List.mem_append.1 hab with h | h
+        · exact Or.inr (Or.inr (hdone a b h hnz))
+        · simp at h; exact Or.inl h
+
+/-- **`pcalg_to_graph` on a well-formed matrix** returns the graph the documentation assigns to it -/
+theorem pcDec_spec (c : Cls) (hc : c ∈ [Cls.cpdag, .pag]) (A : Mat) (n : Nat) (T : Nat → Nat → PB)
+    (hT : Denotes c .pcalg A n T) : ∃ g, pcDec c A n = some g ∧ Decodes g n T := by
+  have aux : ∀ (rest done : List (Nat × Nat)) (st : MG × List (Nat × Nat)), (∀ x ∈ rest, x ∈ allPairs n) →
+      PcInv A n T done st →
+      ∃ st', rest.foldl (pcDecStep c A) (some st) = some st' ∧ PcInv A n T (done ++ rest) st' := by
+    intro rest
+    induction rest with
+    | nil => intro done st _ hinv; exact ⟨st, rfl, by simpa using hinv⟩
+    | cons x rest ih =>
+      intro done st hmem hinv
+      obtain ⟨u, v⟩ := x
+      obtain ⟨hu, hv⟩ := mem_allPairs.1 (hmem _ List.mem_cons_self)
+      obtain ⟨s1, hs1, hinv1⟩ := pcDecStep_inv c hc A n T hT u v hu hv done st hinv
+      obtain ⟨s2, hs2, hinv2⟩ := ih (done ++ [(u, v)]) s1 (fun y hy => hmem y (List.mem_cons_of_mem _ hy)) hinv1
+      exact ⟨s2, by rw [List.foldl_cons, hs1, hs2], by simpa [List.append_assoc] using hinv2⟩
+  obtain ⟨st, hst, hn, hm, hb, hd, hdone⟩ := aux (allPairs n) [] (emptyG n, []) (fun _ h => h)
+    ⟨rfl, by simp, by simp [bits_emptyG], fun a => bits_emptyG n a a, by simp⟩
+  have hne : c ≠ .admg := by
+    intro e; subst e; simp at hc
+  refine ⟨st.1, by simp [pcDec, hne, hst], hn, ?_, hd, ?_⟩
+  · intro a b ha hb' hab
+    rw [hb a b hab]
+    by_cases hmem : (a, b) ∈ st.2
+    · rw [if_pos hmem]
+    · rw [if_neg hmem]
+      -- both cells are zero, so the documented configuration is the empty one
+      have h1 : A a b = 0 := by
+        apply Classical.byContradiction; intro hnz
+        exact hmem (hdone a b (by simpa using mem_allPairs.2 ⟨ha, hb'⟩) hnz)
+      have h2 : A b a = 0 := by
+        apply Classical.byContradiction; intro hnz
+        exact hmem (hm b a (hdone b a (by simpa using mem_allPairs.2 ⟨hb', ha⟩) hnz)).1
+      have he := hT.2 a b ha hb' hab
+      rw [h1, h2] at he
+      have : (PB.empty, (0 : Int), (0 : Int)) ∈ tableZ c .pcalg := by simp [tableZ]
+      exact (tableZ_cells_inj c (mem_allCls c) .pcalg (mem_fmts _) _ he _ this rfl).symm
+  · intro a b hnot
+    by_cases hab : a = b
+    · subst hab; exact hd a
+    · rw [hb a b hab, if_neg]
+      intro hmem; exact hnot ⟨(hm a b hmem).2.2.1, (hm a b hmem).2.2.2⟩
+
 end C14
